@@ -99,49 +99,37 @@ func cmdRun(args []string) int {
 	}
 	loadSecs := time.Since(t0).Seconds()
 
-	timeout := 20000
+	timeout := 5000
 	if tier == "thorough" {
-		timeout = 120000
+		timeout = 20000
 	}
 	totalWorkers := 16
 	if s := os.Getenv("VERIF_WORKERS"); s != "" {
 		totalWorkers, _ = strconv.Atoi(s)
 	}
-	conc := len(insts)
-	if conc > totalWorkers {
-		conc = totalWorkers
-	}
-	if conc == 0 {
-		conc = 1
-	}
-	perInst := (totalWorkers + conc - 1) / conc
-	if perInst < 1 {
-		perInst = 1
-	}
+	ss := mkSolvers(totalWorkers, timeout)
+	pool := sym.NewPool(ss)
 	outs := make([]instOut, len(insts))
-	sem := make(chan struct{}, conc)
 	var wg sync.WaitGroup
 	enabled := enabledFn(def.Enable)
 	pathModels := def.PathModels
 	for idx := range insts {
 		wg.Add(1)
-		sem <- struct{}{}
 		go func(idx int) {
 			defer wg.Done()
-			defer func() { <-sem }()
 			in := insts[idx]
-			ss := mkSolvers(perInst, timeout)
-			defer closeSolvers(ss)
 			t1 := time.Now()
-			opt := &sym.Options{Harness: in.Harness, Params: in.Params, Enabled: enabled, Known: kf.openSet(), Solvers: ss, PathModels: pathModels}
+			opt := &sym.Options{Harness: in.Harness, Params: in.Params, Enabled: enabled, Known: kf.openSet(), PathModels: pathModels, Portfolio: true}
 			if v, ok := in.Params["maxDigits"]; ok {
 				opt.MaxDigits, _ = strconv.Atoi(v)
 			}
-			hr := progs[in.LevelB].RunHarness(opt)
+			hr := progs[in.LevelB].RunHarnessOn(opt, pool)
 			outs[idx] = instOut{inst: in, hr: hr, secs: time.Since(t1).Seconds()}
 		}(idx)
 	}
 	wg.Wait()
+	pool.Close()
+	closeSolvers(ss)
 	nwg.Wait()
 	if nativeErr != nil {
 		fmt.Println("UNDECIDED:", nativeErr)
